@@ -10,7 +10,7 @@ from __future__ import annotations
 
 import ast
 
-from ..fold import Unknown, fold_name
+from ..fold import Unknown, fold_in_fn, fold_name
 from ..minieval import Unsupported
 from ..model import Undecided, walk_fn
 from ..stubrun import RUNTIME_ERRORS, StubContext, line_tokens, run_rule
@@ -30,9 +30,16 @@ def lexer_kinds(prog):
         if fn.mod.rel != "lexer/lexer.py":
             continue
         for n in walk_fn(fn.node):
-            if isinstance(n, ast.Call) and isinstance(n.func, ast.Name) and n.func.id == "Token" and n.args \
-                    and isinstance(n.args[0], ast.Constant) and isinstance(n.args[0].value, str):
-                kinds.add(n.args[0].value)
+            if isinstance(n, ast.Call) and isinstance(n.func, ast.Name) and n.func.id == "Token" and n.args:
+                a = n.args[0]
+                v = fold_in_fn(a, fn, default=None)
+                if isinstance(v, str):
+                    kinds.add(v)
+                elif isinstance(a, ast.Subscript):
+                    # Token(table[key], pos): any value of a foldable table (the three big ones are already in)
+                    t = fold_in_fn(a.value, fn, default=None)
+                    if isinstance(t, dict):
+                        kinds |= {x for x in t.values() if isinstance(x, str)}
     return kinds
 
 
@@ -46,7 +53,7 @@ def rule_directive_line(run, prog, rid="R-7.5"):
     m = prog.method("IsPreprocessorStatement", "run")
     run.require(m is not None, "anchor vanished: IsPreprocessorStatement.run")
     kinds = sorted(lexer_kinds(prog) - {"NEWLINE"})
-    run.require(len(kinds) >= 90, f"only {len(kinds)} token kinds found for the lexer (floor 90)")
+    run.require(len(kinds) >= 64, f"only {len(kinds)} token kinds found for the lexer (floor 64, 70 % of the 92 of the pinned tree)")
     heads = {"define": ["HASH", "SPACE", ("IDENTIFIER", "define"), "SPACE", ("IDENTIFIER", "X"), "SPACE"],
              "pragma": ["HASH", "SPACE", ("IDENTIFIER", "pragma"), "SPACE"],
              "error": ["HASH", "SPACE", ("IDENTIFIER", "error"), "SPACE"],
